@@ -124,6 +124,11 @@ def generate(rng, config):
             "seed_arg": rng.choice([None, None, 0, 1, 42, "str"]),
             "prng": {"seed": rng.randrange(2 ** 32), "strategy": strategy,
                      "budget": budget}}
+    if config != "cli" and rng.random() < 0.3:
+        # further requests of the same process, with the same argument
+        # objects (the caller keeps its list of planted assignments)
+        case["again"] = [rng.choice(["kcnf", "kxor"])
+                         for _ in range(rng.choice([1, 1, 2]))]
     if config == "cli":
         case["cli"] = True
         case["plant"] = rng.random() < 0.5
@@ -133,14 +138,30 @@ def generate(rng, config):
 
 
 def execute(case, ctx):
-    kind, k, n, m = case["kind"], case["k"], case["n"], case["m"]
+    k, n, m = case["k"], case["n"], case["m"]
     planted = [list(a) for a in case["planted"]]
+    klass = CNF if case["klass"] == "CNF" else OPB
+    kw = {"formula_class": klass}
+    if planted:
+        conv = {"tuple": tuple, "set": set,
+                "frozenset": frozenset}.get(case.get("planted_form"), list)
+        kw["planted_assignments"] = [conv(a) for a in planted]
+    if case["seed_arg"] is not None:
+        kw["seed"] = case["seed_arg"]
+    rounds = [case["kind"]] + (case.get("again") or [])
+    for ri, kind in enumerate(rounds):
+        if ri:
+            ctx.fault("same_argument_objects_reused")
+        _one_request(case, ctx, kind, ri, kw, planted)
+
+
+def _one_request(case, ctx, kind, ri, kw, planted):
+    k, n, m = case["k"], case["n"], case["m"]
     # a correct run needs at most 10*m sparse trials of (1 + k) draws plus
     # one dense sample: the progress bound scales with the request
-    sim = SimRandom(case["prng"]["seed"], case["prng"]["strategy"],
+    sim = SimRandom(case["prng"]["seed"] + ri, case["prng"]["strategy"],
                     case["prng"]["budget"],
                     max_draws=20_000 + 25 * (m + 1) * (k + 2))
-    klass = CNF if case["klass"] == "CNF" else OPB
     fn = cnfgen.RandomKCNF if kind == "kcnf" else cnfgen.RandomKXOR
     climsg._prefix = ""
     with installed(sim):
@@ -158,16 +179,7 @@ def execute(case, ctx):
             # is its own business (no assumption on how it is drawn): the
             # maximum does not depend on it, and the result must be
             # satisfied by *some* total assignment (checked below)
-            unknown_plant = bool(case["plant"]) and k <= n
         else:
-            kw = {"formula_class": klass}
-            if planted:
-                conv = {"tuple": tuple, "set": set,
-                        "frozenset": frozenset}.get(
-                            case.get("planted_form"), list)
-                kw["planted_assignments"] = [conv(a) for a in planted]
-            if case["seed_arg"] is not None:
-                kw["seed"] = case["seed_arg"]
             res = call(fn, k, n, m, **kw)
     if sim.adversarial:
         ctx.fault("adversarial_draws", sim.adversarial)
@@ -175,11 +187,12 @@ def execute(case, ctx):
     ctx.log(kind, k, n, m, len(case["planted"]), case["klass"],
             case["prng"]["strategy"], case["prng"]["budget"], res[0],
             sim.draws)
-    ctx.shape = (kind, k, n, m, case["planted"], case["klass"],
-                 case["prng"], case.get("cli"), case.get("plant"))
-    where = "%s(k=%d,n=%d,m=%d) planted=%r class=%s prng=%r cli=%r" % (
-        kind, k, n, m, planted, case["klass"], case["prng"],
-        case.get("cli", False))
+    ctx.shape = (case["kind"], k, n, m, case["planted"], case["klass"],
+                 case["prng"], case.get("cli"), case.get("plant"),
+                 case.get("again"))
+    where = "request %d: %s(k=%d,n=%d,m=%d) planted=%r class=%s prng=%r " \
+        "cli=%r" % (ri, kind, k, n, m, planted, case["klass"], case["prng"],
+                    case.get("cli", False))
 
     def bad(clause, detail):
         raise Violation("C13/%s/%s" % (kind, clause), "%s\n%s" %
